@@ -133,3 +133,68 @@ Proof.
   destruct (C04_region_partition _ _ _ _ _ _ _ H). repeat split; auto.
   exact (C04_region_nodes_inside _ _ _ ex_dec_ok _ _ _ _ ex_img_ok H).
 Qed.
+
+(* ---------------------------------------------------------------------------------------- *)
+(* Kernel ties: the arithmetic kernels of pkg/uefi this property rests on, as TRANSCRIBED FROM
+   THE GO SOURCE on every run (translator/Kernels.sh -> Gen/GoKernels.v), equal the functions of
+   the model (Proofs/KernelTie.v).  A change of one of these Go functions breaks the lemma. *)
+From Fiano Require Import Base.Bytes Base.GoInt Gen.GoKernels Proofs.KernelTie.
+Local Open Scope Z_scope.
+
+Theorem C04_kernel_Align : forall v b, go_Align v b = Ffs.align_go v b.
+Proof. exact go_Align_tie. Qed.
+Print Assumptions C04_kernel_Align.
+
+Theorem C04_kernel_Align_pow2 : forall v k, 0 <= v -> 0 <= k < 64 -> v + 2 ^ k - 1 < 2 ^ 64 ->
+  go_Align v (2 ^ k) = Ffs.align v (2 ^ k).
+Proof. exact go_Align_pow2. Qed.
+Print Assumptions C04_kernel_Align_pow2.
+
+Theorem C04_kernel_Align4 : forall v, 0 <= v -> v + 3 < 2 ^ 64 -> go_Align4 v = Ffs.align4 v.
+Proof. exact go_Align4_tie. Qed.
+Print Assumptions C04_kernel_Align4.
+
+Theorem C04_kernel_Align8 : forall v, 0 <= v -> v + 7 < 2 ^ 64 -> go_Align8 v = Ffs.align8 v.
+Proof. exact go_Align8_tie. Qed.
+Print Assumptions C04_kernel_Align8.
+
+Theorem C04_kernel_Read3Size : forall a b c, 0 <= a < 256 -> 0 <= b < 256 -> 0 <= c < 256 ->
+  go_Read3Size [a; b; c] = le_dec [a; b; c].
+Proof. exact go_Read3Size_tie. Qed.
+Print Assumptions C04_kernel_Read3Size.
+
+Theorem C04_kernel_Write3Size : forall size, 0 <= size < 2 ^ 64 -> go_Write3Size size = le_enc 3 (Ffs.write3 size).
+Proof. exact go_Write3Size_tie. Qed.
+Print Assumptions C04_kernel_Write3Size.
+
+Theorem C04_kernel_Checksum8 : forall b, go_Checksum8 b = Ffs.sum8 b.
+Proof. exact go_Checksum8_tie. Qed.
+Print Assumptions C04_kernel_Checksum8.
+
+Theorem C04_kernel_Checksum16 : forall b, Z.even (zlen b) = true -> go_Checksum16 b = Ok (Ffs.sum16 b).
+Proof. exact go_Checksum16_tie. Qed.
+Print Assumptions C04_kernel_Checksum16.
+
+Theorem C04_kernel_Checksum16_odd : forall b, Z.even (zlen b) = false -> go_Checksum16 b = Err 1.
+Proof. exact go_Checksum16_odd. Qed.
+Print Assumptions C04_kernel_Checksum16_odd.
+
+Theorem C04_kernel_IsErased : forall buf pol, go_IsErased buf pol = forallb (fun x => x =? pol) buf.
+Proof. exact go_IsErased_tie. Qed.
+Print Assumptions C04_kernel_IsErased.
+
+Theorem C04_kernel_IsLarge : forall a, go_fileAttr_IsLarge a = Ffs.attr_large a.
+Proof. exact go_fileAttr_IsLarge_tie. Qed.
+Print Assumptions C04_kernel_IsLarge.
+
+Theorem C04_kernel_HasChecksum : forall a, go_fileAttr_HasChecksum a = Ffs.attr_checksum a.
+Proof. exact go_fileAttr_HasChecksum_tie. Qed.
+Print Assumptions C04_kernel_HasChecksum.
+
+Theorem C04_kernel_GetAlignment : forall a, 0 <= a < 256 -> go_fileAttr_GetAlignment a = Ok (Ffs.attr_align a).
+Proof. exact go_fileAttr_GetAlignment_tie. Qed.
+Print Assumptions C04_kernel_GetAlignment.
+
+Theorem C04_kernel_GetErasePolarity : forall attrs, go_FirmwareVolume_GetErasePolarity attrs = Ffs.fv_polarity attrs.
+Proof. exact go_FirmwareVolume_GetErasePolarity_tie. Qed.
+Print Assumptions C04_kernel_GetErasePolarity.
